@@ -237,15 +237,17 @@ def parse_format_block(blk):
     if template is None:
         return None
     if isinstance(template, tuple):
-        return [('lit', template[1])], []
+        return [('lit', template[1])], [], []
     pieces = decode_template(template)
     exprs = []
+    traits = []
     if args_tuple is not None:
         if fmt_args:
             exprs = [args_tuple[i] for (i, _n) in fmt_args if i < len(args_tuple)]
+            traits = [n for (i, n) in fmt_args if i < len(args_tuple)]
         else:
             exprs = list(args_tuple)
-    return pieces, exprs
+    return pieces, exprs, traits
 
 
 def write_events(hfn):
@@ -281,7 +283,8 @@ def write_events(hfn):
         if e.get('k') == 'mcall' and e.get('def') == 'std::io::Write::write_fmt':
             pf = parse_format_block(e['args'][0]) if e['args'] else None
             if pf:
-                evs.append({'kind': 'fmt', 'pieces': pf[0], 'args': pf[1], 'ln': e['ln'], 'conds': conds_of(anc)})
+                evs.append({'kind': 'fmt', 'pieces': pf[0], 'args': pf[1], 'traits': pf[2], 'ln': e['ln'],
+                            'conds': conds_of(anc)})
             else:
                 evs.append({'kind': 'fmt', 'pieces': [], 'args': [], 'ln': e['ln'], 'conds': conds_of(anc),
                             'opaque': True})
